@@ -392,8 +392,8 @@ func intExpr(v ssa.Value, bind map[ssa.Value]int64, depth int) (int64, bool) {
 func ruleC05Nib(e *Env, hyph []int) {
 	const rule = "C05.nib"
 	dp := e.Fn(rule, "uu", "DefaultParser")
-	pd := e.P.Func("uu", "parseDigit")
-	startsG := e.P.Var("uu", "starts")
+	pd := e.F("uu", "parseDigit")
+	startsG := e.V("uu", "starts")
 	if dp == nil || pd == nil || startsG == nil || hyph == nil {
 		if dp != nil {
 			e.S.Unk(rule, flow.FnName(dp), "anchors", "parseDigit, starts or the formatter layout not available", e.Pos(dp))
@@ -800,7 +800,7 @@ func ruleC05Strict(e *Env, hyph []int) {
 		switch {
 		case as == "*uu.MaxInputLength" && bs == "0":
 			return 0, true, true
-		case bs == "len(*uu.starts)" || as == "len(*uu.starts)":
+		case bs == "len(*uu."+e.vname("uu", "starts")+")" || as == "len(*uu."+e.vname("uu", "starts")+")":
 			return 0, true, true // skip the digit loop: its body is C05.nib's business
 		}
 		return 0, false, false
@@ -856,7 +856,7 @@ func ruleC05Strict(e *Env, hyph []int) {
 	}
 	mk := func() []pred.Val { return []pred.Val{pred.Sym{Name: "input"}, pred.Sym{Name: "r"}} }
 	sums := map[string]pred.Summary{}
-	if pd := e.P.Func("uu", "parseDigit"); pd != nil {
+	if pd := e.F("uu", "parseDigit"); pd != nil {
 		// the digit loop is C05.nib / C05.digit's business: here every digit is taken as valid
 		sums[pd.String()] = func(ev *pred.Evaluator, args []pred.Val) (pred.Val, error) {
 			return pred.Tuple{pred.Term{Fn: "digit", Args: args[:1]}, pred.Const{V: constant.MakeBool(true)}}, nil
